@@ -999,4 +999,238 @@ theorem sites_match :
     allOps.all siteOk = true ∧
     hashOfSites.contains ("sql/plan/subquery.go", "putAllRows", true) = true := by decide
 
+/-! ## Floating point values -/
+
+/-- Normal form of `Val.flt` (what the shortest round-trip decimal of a double looks like): integral
+values carry scale 0, other coefficients do not end in 0, and -0.0 is `flt 0 0 true`. -/
+def FltNorm (c : Int) (s : Nat) (z : Bool) : Prop :=
+  (s = 0 ∨ c % 10 ≠ 0) ∧ (z = true → c = 0 ∧ s = 0)
+
+def FltLike : Val → Prop
+  | .null => True
+  | .flt c s z => FltNorm c s z
+  | _ => False
+
+theorem decText_ne_negZero (c : Int) (s : Nat) : decText c s ≠ [45, 48] := by
+  intro h
+  rw [decText_eq] at h
+  split at h
+  · rename_i hc
+    have hb : decBody c s = decBody 0 0 := by
+      have := (List.cons.inj h).2
+      rw [this]; decide
+    have := decBody_abs hb
+    omega
+  · exact decBody_chars c s 45 (by rw [h]; simp) rfl
+
+/-- The float arm writes the positional decimal text of the value: all integer digits for an
+integral value of ANY magnitude (no saturation at ±2^63), and -0.0 like 0.0. -/
+theorem fltText_norm (c : Int) (s : Nat) (z : Bool) (h : FltNorm c s z) : fltText c s z = decText c s := by
+  cases z with
+  | true =>
+    obtain ⟨rfl, rfl⟩ := h.2 rfl
+    decide
+  | false =>
+    have := decText_ne_negZero c s
+    simp [fltText, this]
+
+theorem pow10_add (a b : Nat) : pow10 (a + b) = pow10 a * pow10 b := by
+  unfold pow10; exact Nat.pow_add 10 a b
+
+theorem eqNum_norm_lt {c1 c2 : Int} {s1 s2 : Nat} (hlt : s1 < s2) (h2 : c2 % 10 ≠ 0)
+    (he : c1 * ((pow10 s2 : Nat) : Int) = c2 * ((pow10 s1 : Nat) : Int)) : False := by
+  obtain ⟨k, rfl⟩ : ∃ k, s2 = s1 + (k + 1) := ⟨s2 - s1 - 1, by omega⟩
+  rw [pow10_add, pow10_add] at he
+  have hp := pow10_pos s1
+  have hpz : ((pow10 s1 : Nat) : Int) ≠ 0 := by omega
+  have h10 : pow10 1 = 10 := by decide
+  rw [h10] at he
+  have he' : (c1 * ((pow10 k : Nat) : Int) * 10) * ((pow10 s1 : Nat) : Int) = c2 * ((pow10 s1 : Nat) : Int) := by
+    rw [← he]; push_cast; ac_rfl
+  have := Int.eq_of_mul_eq_mul_right hpz he'
+  omega
+
+/-- Two doubles in normal form are numerically equal only if they are the same decimal. -/
+theorem eqNum_norm {c1 c2 : Int} {s1 s2 : Nat} (n1 : s1 = 0 ∨ c1 % 10 ≠ 0) (n2 : s2 = 0 ∨ c2 % 10 ≠ 0)
+    (he : c1 * ((pow10 s2 : Nat) : Int) = c2 * ((pow10 s1 : Nat) : Int)) : c1 = c2 ∧ s1 = s2 := by
+  rcases Nat.lt_trichotomy s1 s2 with hlt | heq | hgt
+  · exact (eqNum_norm_lt hlt (n2.resolve_left (by omega)) he).elim
+  · subst heq
+    have hp := pow10_pos s1
+    have hpz : ((pow10 s1 : Nat) : Int) ≠ 0 := by omega
+    exact ⟨Int.eq_of_mul_eq_mul_right hpz he, rfl⟩
+  · exact (eqNum_norm_lt hgt (n1.resolve_left (by omega)) he.symm).elim
+
+theorem flt_text_iff_eq {c1 c2 : Int} {s1 s2 : Nat} {z1 z2 : Bool} (h1 : FltNorm c1 s1 z1) (h2 : FltNorm c2 s2 z2) :
+    decide (fltText c1 s1 z1 = fltText c2 s2 z2) = eqNum (c1, s1) (c2, s2) := by
+  rw [fltText_norm _ _ _ h1, fltText_norm _ _ _ h2]
+  simp only [eqNum]
+  by_cases h : c1 = c2 ∧ s1 = s2
+  · obtain ⟨rfl, rfl⟩ := h; simp
+  · have ht : decText c1 s1 ≠ decText c2 s2 := fun he => h (decText_inj he)
+    have hn : ¬ (c1 * ((pow10 s2 : Nat) : Int) = c2 * ((pow10 s1 : Nat) : Int)) := fun he => h (eqNum_norm h1.1 h2.1 he)
+    simp [ht, hn]
+
+/-- **Floating point values** (float32/float64 arms of `HashOf`): same key ⇔ not distinct — for
+doubles of every magnitude, in particular whole numbers ≥ 2^63 in magnitude, and -0.0 vs 0.0.
+Covers GROUP BY, DISTINCT, UNION, INTERSECT, EXCEPT, IN (subquery) over DOUBLE columns. -/
+theorem flt_key_iff_eq (c : Coll) : Agree FltLike (hashOfRel none) (same c) := by
+  intro a b ha hb
+  cases a <;> cases b <;> simp only [FltLike] at ha hb
+  · rfl
+  · rename_i k s z
+    simp only [hashOfRel, elemKey, goText, keyEq_some, same, eqVal]
+    rw [fltText_norm _ _ _ hb]
+    simp [Ne.symm (decText_ne_nilKey k s)]
+  · rename_i k s z
+    simp only [hashOfRel, elemKey, goText, keyEq_some, same, eqVal]
+    rw [fltText_norm _ _ _ ha]
+    simp [decText_ne_nilKey k s]
+  · rename_i k1 s1 z1 k2 s2 z2
+    simp only [hashOfRel, elemKey, goText, keyEq_some, same, eqVal, numOf]
+    rw [flt_text_iff_eq ha hb]
+    simp
+
+/-- Floats under `HashOfSimple(·, Float64)` (IN list of float literals, hash join on DOUBLE columns). -/
+theorem flt_simple_iff_eq (c : Coll) :
+    Agree FltLike (fun a b => keyEq (simpleKey .float64 a) (simpleKey .float64 b)) (mtch c) := by
+  intro a b ha hb
+  cases a <;> cases b <;> simp only [FltLike] at ha hb
+  · simp [simpleKey, keyEq, mtch, eqVal]
+  · simp [simpleKey, keyEq, mtch, eqVal]
+  · simp [simpleKey, keyEq, mtch, eqVal]
+  · rename_i k1 s1 z1 k2 s2 z2
+    simp only [simpleKey, numKey, keyEq_some, mtch, eqVal, numOf]
+    rw [flt_text_iff_eq ha hb]
+    simp
+
+/-- **Whole-number doubles of any magnitude never collide**: two different integral values —
+1e19 and 2e19, 2^63 and 2^64, 3.5e30 and -1e19 — have different keys (no saturation where a
+conversion to int64 stops being defined). -/
+theorem flt_whole_distinct_keys (c1 c2 : Int) (h : c1 ≠ c2) :
+    hashOfRel none (.flt c1 0 false) (.flt c2 0 false) = false := by
+  simp only [hashOfRel, elemKey, goText, keyEq_some]
+  rw [fltText_norm _ _ _ ⟨Or.inl rfl, by simp⟩, fltText_norm _ _ _ ⟨Or.inl rfl, by simp⟩]
+  have : decText c1 0 ≠ decText c2 0 := fun he => h (decText_inj he).1
+  simp [this]
+
+example : hashOfRel none (.flt 10000000000000000000 0 false) (.flt 20000000000000000000 0 false) = false ∧
+    hashOfRel none (.flt 9223372036854775808 0 false) (.flt (-9223372036854775808) 0 false) = false ∧
+    hashOfRel none (.flt 0 0 true) (.flt 0 0 false) = true ∧
+    goText (.flt 3500000000000000000000000000000 0 false) = intText 3500000000000000000000000000000 := by decide
+
+/-! ## Whole-operator corollary for DOUBLE columns -/
+
+theorem decText_ne_nil (c : Int) (s : Nat) : decText c s ≠ [] := by
+  intro h
+  rw [decText_eq] at h
+  split at h
+  · simp at h
+  · have hl := decDigits_length c s
+    have hu := decBody_undot c s
+    rw [h] at hu
+    have : (decDigits c s).length = 0 := by rw [← hu]; rfl
+    omega
+
+theorem countDistinct_flt (c : Coll) :
+    Agree FltLike (fun a b => countDistinctKey [a] == countDistinctKey [b]) (same c) := by
+  intro a b ha hb
+  cases a <;> cases b <;> simp only [FltLike] at ha hb
+  · simp [countDistinctKey, toStr, same]
+  · rename_i k s z
+    simp only [countDistinctKey, toStr, same, eqVal]
+    rw [fltText_norm _ _ _ hb]
+    have := decText_ne_nil k s
+    cases hd : decText k s with
+    | nil => exact absurd hd this
+    | cons x xs => simp
+  · rename_i k s z
+    simp only [countDistinctKey, toStr, same, eqVal]
+    rw [fltText_norm _ _ _ ha]
+    have := decText_ne_nil k s
+    cases hd : decText k s with
+    | nil => exact absurd hd this
+    | cons x xs => simp
+  · rename_i k1 s1 z1 k2 s2 z2
+    simp only [countDistinctKey, toStr, same, eqVal, numOf]
+    rw [← flt_text_iff_eq ha hb]
+    by_cases h : fltText k1 s1 z1 = fltText k2 s2 z2
+    · rw [h]; simp
+    · have : (fltText k1 s1 z1 ++ [44] == fltText k2 s2 z2 ++ [44]) = false := by
+        apply beq_eq_false_iff_ne.2
+        intro he
+        exact h (List.append_cancel_right he)
+      rw [this]
+      simp [h]
+
+theorem emptyRowKey_flt (v : Val) (h : FltLike v) : emptyRowKey v = false := by
+  cases v <;> simp only [FltLike] at h
+  · decide
+  · rename_i k s z
+    simp only [emptyRowKey, elemKey, goText]
+    rw [fltText_norm _ _ _ h]
+    simp [decText_ne_nil k s]
+
+theorem inputs_flt (op : Op) (xs ys : List Val) (hx : ∀ x ∈ xs, FltLike x) (hy : ∀ y ∈ ys, FltLike y) :
+    ∀ v ∈ (inputs op .dbl .dbl xs ys).1 ++ (inputs op .dbl .dbl xs ys).2, FltLike v := by
+  have harr : ∀ v, arrive .dbl .dbl v = v := by intro v; cases v <;> rfl
+  have hconv : ∀ v, convTo .dbl v = v := by intro v; cases v <;> rfl
+  intro v hv
+  cases op <;> simp only [inputs, List.mem_append, List.mem_map] at hv <;>
+    first
+    | (rcases hv with ⟨w, hw, rfl⟩ | ⟨w, hw, rfl⟩
+       · rw [harr]; exact hx w hw
+       · rw [harr]; exact hy w hw)
+    | (rcases hv with hv | hv
+       · exact hx v hv
+       · exact hy v hv)
+    | (rcases hv with ⟨w, hw, rfl⟩ | hv
+       · rw [hconv w]; exact hx w hw
+       · exact hy v hv)
+
+/-- **C07 for DOUBLE columns**: over two DOUBLE columns holding any doubles (every magnitude —
+beyond ±2^63 and 2^64 included —, fractions, ±0) and NULLs, all nine operators — GROUP BY,
+DISTINCT, COUNT(DISTINCT), UNION, INTERSECT, EXCEPT, IN list (of float literals), IN (subquery)
+and the hash join — return exactly what `=` demands. -/
+theorem dbl_columns_correct (e : Env) (op : Op) (xs ys : List Val)
+    (hx : ∀ x ∈ xs, FltLike x) (hy : ∀ y ∈ ys, FltLike y) :
+    implObs e op .dbl .dbl xs ys = specObs e op .dbl .dbl xs ys := by
+  apply op_partial
+  have hin := inputs_flt op xs ys hx hy
+  refine ⟨?_, ?_⟩
+  · intro a ha b hb
+    have hA := hin a ha
+    have hB := hin b hb
+    cases op with
+    | inList => exact flt_simple_iff_eq _ a b hA hB
+    | groupBy => exact flt_key_iff_eq _ a b hA hB
+    | distinct => exact flt_key_iff_eq _ a b hA hB
+    | union => exact flt_key_iff_eq _ a b hA hB
+    | intersect => exact flt_key_iff_eq _ a b hA hB
+    | except => exact flt_key_iff_eq _ a b hA hB
+    | countDistinct => exact countDistinct_flt _ a b hA hB
+    | inSub =>
+      have hk := flt_key_iff_eq (e.cmpColl .dbl) a b hA hB
+      cases a <;> cases b <;> simp only [FltLike] at hA hB
+      · simp [relsOf, mtch, eqVal]
+      · simp [relsOf, mtch, eqVal]
+      · simp [relsOf, mtch, eqVal]
+      · simp only [relsOf, Env.collOf]
+        rw [hk]
+        rfl
+    | hashJoin => exact flt_simple_iff_eq _ a b hA hB
+  · intro _ a ha
+    exact emptyRowKey_flt a (hin a ha)
+
+/-- Non-vacuity: 1e19, 2e19, -1e19, 3.5e30, 2^63, 2, 0.5 and 0 are eight groups; 2e19 IN (2e19, 5) only. -/
+example : implObs envW .groupBy .dbl .dbl
+    [.flt 10000000000000000000 0 false, .flt 20000000000000000000 0 false, .flt (-10000000000000000000) 0 false,
+     .flt 3500000000000000000000000000000 0 false, .flt 9223372036854775808 0 false, .flt 2 0 false, .flt 5 1 false,
+     .flt 0 0 false] [.flt 20000000000000000000 0 false, .flt 0 0 true]
+    = .pairs [(0, 1), (1, 2), (2, 1), (3, 1), (4, 1), (5, 1), (6, 1), (7, 2)] := by decide
+
+example : implObs envW .inList .dbl .dbl
+    [.flt 10000000000000000000 0 false, .flt 20000000000000000000 0 false, .flt 3500000000000000000000000000000 0 false]
+    [.flt 20000000000000000000 0 false, .flt 5 0 false] = .nats [1] := by decide
+
 end Gms.C07
